@@ -112,6 +112,15 @@ def spec_rhs(ds, ks, conc):
     return out
 
 
+def _same_names_as_reported(odesys, extra):
+    """'parameter names matching parameter keys': the names handed to the ODE system are, EACH ONCE, the parameter keys the answer reports
+    (extra['param_keys']) together with the registered unique keys (extra['unique']) -- as SETS: the property fixes no order of the parameters, and
+    pyodesys maps values given by name through param_names, whatever their order. (The one thing that IS positional, the units of the parameters
+    when a registry is given, is checked by name in get_odesys.unit_registry.parameter_units_follow_the_names.)"""
+    names = list(odesys.param_names)
+    return len(set(names)) == len(names) and set(names) == set(extra["param_keys"]) | set(extra["unique"])
+
+
 def _inline(name, lays):
     @harness("C04", "get_odesys.inlined." + name, functions=[ODE + ":get_odesys", ODE + ":get_odesys.<locals>.dydt", ODE + ":get_odesys.<locals>.reaction_rates",
                                                              "chempy.reactionsystem:ReactionSystem.rates"], kind="shape-bounded", samples=0, max_paths=300)
@@ -153,9 +162,8 @@ def _free(name, lays):
         odesys, extra = v.call(get_odesys, rsys, include_params=False, SymbolicSys=FakeSymbolicSys)
         uk = ["kk%d" % i for i in range(len(ds))]
         # (the obligation keeps its historical name) the statement does not fix an ORDER of the parameters: exactly the unique keys are parameters,
-        # each once, and -- so that values given by name land on the right symbol -- the names are the reported parameter keys, then the unique keys
-        v.prove("unique_keys_are_parameters_in_reaction_order", sorted(odesys.param_names) == sorted(uk)
-                and list(odesys.param_names) == list(extra["param_keys"]) + [k_ for k_ in extra["unique"] if k_ not in extra["param_keys"]])
+        # each once, and they are the names the answer reports (parameter keys and registered unique keys) -- see _same_names_as_reported
+        v.prove("unique_keys_are_parameters_in_reaction_order", sorted(odesys.param_names) == sorted(uk) and _same_names_as_reported(odesys, extra))
         v.prove("each_key_registered_with_its_own_constant", sorted(extra["unique"].keys()) == sorted(uk) and SP.conj([extra["unique"][u] == k for u, k in zip(uk, ks)]))
         conc = dict(zip(odesys.names, odesys.dep))
         psym = dict(zip(odesys.param_names, odesys.params))
@@ -234,9 +242,10 @@ def _(v):
     y = dict(zip(odesys.names, odesys.dep))
     p = dict(zip(odesys.param_names, odesys.params))
     v.prove("feed_parameters", set(odesys.param_names) == {"feedratio", "fc_A", "fc_B", "fc_S"} and len(odesys.param_names) == 4)
-    # the ORDER of free parameter keys comes from a set in the code (hash dependent): what is fixed is that the names handed to the ODE system are the
-    # reported parameter keys followed by the registered unique keys, so that values given by name land on the right symbol
-    v.prove("parameter_names_are_the_reported_keys_then_unique_keys", list(odesys.param_names) == list(extra["param_keys"]) + [k for k in extra["unique"] if k not in extra["param_keys"]])
+    # (the obligation keeps its historical name) no ORDER of the parameters is part of the statement (in the code it comes from a set: hash dependent,
+    # and a maintainer may sort it): what is fixed is that the names handed to the ODE system are, each once, the reported parameter keys and the
+    # registered unique keys; the symbols are looked up by name (p[...] above), so that cstr_rhs does not depend on the order either
+    v.prove("parameter_names_are_the_reported_keys_then_unique_keys", _same_names_as_reported(odesys, extra), detail=repr(odesys.param_names))
     rate = k * SP.spow(y["A"], a)
     v.prove("cstr_rhs", SP.conj([v.eq(odesys.exprs[0], -a * rate + p["feedratio"] * (p["fc_A"] - y["A"])),
                                  v.eq(odesys.exprs[1], b * rate + p["feedratio"] * (p["fc_B"] - y["B"])),
@@ -281,8 +290,8 @@ def _(v):
 
     def check(label, o, x, pnames, kc, fr, fc):
         """kc(p), fr(p), fc(p, s): the rate constant, the feed ratio and the feed concentration of s in terms of the parameter symbols"""
-        v.prove(label + ".parameters", sorted(o.param_names) == sorted(pnames)
-                and list(o.param_names) == list(x["param_keys"]) + [k_ for k_ in x["unique"] if k_ not in x["param_keys"]], detail=repr(o.param_names))
+        # exactly the expected names, each once, in whatever order (the symbols are looked up by name below), and the same names as the answer reports
+        v.prove(label + ".parameters", sorted(o.param_names) == sorted(pnames) and _same_names_as_reported(o, x), detail=repr(o.param_names))
         if sorted(o.param_names) != sorted(pnames):
             return
         y = dict(zip(o.names, o.dep))
@@ -991,6 +1000,69 @@ def _(v):
     for label, kw in (("free", dict(include_params=False)), ("inlined", dict())):
         r = _native_mismatch(lambda: get_odesys(rs_n, unit_registry=reg, substitutions={"k": 2.0 / u.s}, **kw), ["A", "B"], [], lambda y, p, t: [-120.0 * y["A"], 120.0 * y["A"]], rtol=1e-12)
         v.prove("name_bound_to_a_quantity_in_other_units." + label, not r, detail=r)
+
+
+@harness("C04", "get_odesys.unit_registry.parameter_units_follow_the_names", functions=[ODE + ":get_odesys"], kind="data")
+def _(v):
+    """'keeping rate constants as free parameters changes only which symbols are free, never the value of the right-hand side after those symbols
+    are bound', with a unit registry. No ORDER of the parameters is part of the property, but one thing about them is positional: extra['p_units']
+    (the units the pre-processor strips from the parameter values, entry by entry) has to follow param_names -- entry i is the unit OF the parameter
+    named param_names[i], whatever the order of the names -- or a value given by name would be read in another parameter's unit.
+    A -> B with k = Aa*exp(-Ea/T) (Aa, Ea named, T the parameter key 'temperature'), 2 B -> 2 A with the named second-order constant kb; registry:
+    SI with the MINUTE as time unit, so concentrations count in mol/m3. Hand-written units: temperature K, Aa 1/min, Ea K, kb m3/(mol*min).
+    Values bound by name, in units of the caller's choice: T = 300 K, Aa = 2e10/s = 1.2e12/min, Ea = 4000 K, kb = 3/(M*s) = 0.18 m3/(mol*min);
+    [A] = 1 M = 1000 mol/m3, [B] = 2 M = 2000 mol/m3: r1 = 1.2e12*exp(-4000/300)*1000, r2 = 0.18*2000**2 = 720000 (mol/m3/min),
+    d[A]/dt = -r1 + 2*r2, d[B]/dt = r1 - 2*r2"""
+    import math
+    try:
+        from chempy.chemistry import Reaction
+        from chempy.reactionsystem import ReactionSystem
+        from chempy.kinetics.ode import get_odesys
+        from chempy.kinetics.rates import MassAction, Arrhenius
+        from chempy.units import SI_base_registry, default_units as u, to_unitless
+        reg = dict(SI_base_registry, time=u.minute)
+        rs = ReactionSystem([Reaction({"A": 1}, {"B": 1}, MassAction(Arrhenius([1e10 / u.s, 4000 * u.K], unique_keys=("Aa", "Ea")))),
+                             Reaction({"B": 2}, {"A": 2}, MassAction([5.0 / u.molar / u.s], unique_keys=("kb",)))], "A B")
+        unit_of = {"temperature": u.K, "Aa": 1 / u.minute, "Ea": u.K, "kb": u.metre ** 3 / u.mol / u.minute}
+        odesys, extra = get_odesys(rs, unit_registry=reg, include_params=False)
+        names = list(odesys.param_names)
+    except Exception as ex:
+        v.prove("one_unit_per_parameter_name", False, detail=repr(ex)[:300])
+        return
+    try:
+        p_units = list(extra["p_units"])
+        v.prove("one_unit_per_parameter_name", sorted(names) == sorted(unit_of) and len(p_units) == len(names), detail="%r %r" % (names, p_units))
+    except Exception as ex:
+        v.prove("one_unit_per_parameter_name", False, detail=repr(ex)[:300])
+        return
+    if sorted(names) != sorted(unit_of) or len(p_units) != len(names):
+        return
+    # entry i is the unit of the parameter NAMED param_names[i]: one of that unit is exactly one of the hand-written unit (a unit of another
+    # dimension cannot be expressed in it: the conversion raises; a unit of another size gives a number other than 1)
+    bad = []
+    for n, pu in zip(names, p_units):
+        try:
+            one = float(to_unitless(1.0 * pu, unit_of[n]))
+            if not abs(one - 1.0) <= 1e-12:
+                bad.append((n, str(pu), one))
+        except Exception as ex:
+            bad.append((n, str(pu), repr(ex)[:120]))
+    v.prove("unit_i_is_the_unit_of_the_parameter_named_i", not bad, detail=repr(bad))
+    # and end to end, through the system's own pre-processing: values given BY NAME (with units) multiply their own terms
+    try:
+        given = {"temperature": 300 * u.K, "Aa": 2e10 / u.s, "Ea": 4000 * u.K, "kb": 3.0 / u.molar / u.s}
+        x_, y_, p_ = odesys.pre_process(*odesys.to_arrays([0, 1] * u.minute, {"A": 1 * u.molar, "B": 2 * u.molar}, given))
+        flat = lambda a: [float(z) for z in (a[0] if hasattr(a[0], "__len__") else a)]       # one point: a vector, or a 1 x n array
+        pvec, yvec = flat(p_), flat(y_)
+        f = flat(odesys.f_cb(0.0, yvec, pvec))
+        r1, r2 = 1.2e12 * math.exp(-4000.0 / 300.0) * 1000.0, 0.18 * 2000.0 ** 2
+        want = [-r1 + 2 * r2, r1 - 2 * r2]
+        by_name = dict(zip(names, pvec))
+        want_p = {"temperature": 300.0, "Aa": 1.2e12, "Ea": 4000.0, "kb": 0.18}
+        ok = len(f) == 2 and all(abs(a - b) <= 1e-9 * abs(b) for a, b in zip(f, want)) and all(abs(by_name[n] - want_p[n]) <= 1e-9 * want_p[n] for n in want_p)
+        v.prove("values_given_by_name_multiply_their_own_terms", ok, detail="f %r, expected %r; parameters in registry units %r" % (f, want, by_name))
+    except Exception as ex:
+        v.prove("values_given_by_name_multiply_their_own_terms", False, detail=repr(ex)[:300])
 
 
 @harness("C04", "both_builders_same_model", functions=[ODE + ":_create_odesys", ODE + ":get_odesys"], kind="data")
